@@ -781,6 +781,13 @@ RULE = ("(1) method level: random sequences (1-60 operations) of add_connection,
         "times), schedules contain at most one such step; what still cannot be executed is counted as out_of_domain. A step the real code "
         "does not take within 4 s ends the implementation's trace with the marker 78 (after one repetition of the run), an access to the "
         "manager's hook points by a thread that is none of the model's threads with the marker 79: both are mismatches. "
+        "(3) start-up replay: RunConfig::execute runs on a thread of its own that stops at the hook points of the start-up program "
+        "(before a socket is created, after it is bound and listening); schedules of Model/ShutdownBoot.v (execute's next action: count / "
+        "bind + listen / spawn; a client connecting to the bound listener whose task does not exist yet; steps of the accept loops and "
+        "connection tasks that exist already; 1-3 listeners) are replayed, after every step (what execute does next, number of accept "
+        "tasks, program counters) is compared — the count cannot be read before execute has returned the manager: taking the count is "
+        "executed together with the spawn before it, and is compared from the first observation after the return — and from the state "
+        "in which execute returned a schedule as in (2) follows. "
         "distinct_nontrivial counts distinct schedules / operation sequences by outcome")
 ASSUMPTIONS = [
     "sequentially consistent interleavings of the atomic accesses; Release/Acquire store-buffering executions (shutdown() stores the flag "
@@ -790,18 +797,19 @@ ASSUMPTIONS = [
     "every other thread)",
     "every connection task ends (the handler returns or panics) and every registered hook acknowledges exactly once: threads with an "
     "enabled step are eventually scheduled; 'quiescent' means no thread of the server or of its users can move",
-    "listeners are bound and counted before shutdown() can be called: RunConfig::execute, for each port in turn, takes the accept loop's "
-    "count, creates/binds/listens the socket itself (since fix 76d8d4f; before it the spawned task did) and only then spawns the accept "
-    "task, and hands out the manager when all of that is done; the model's initial state is the state at that return (count = number of "
-    "listeners, every loop about to poll) and every replay checks it at its first observation. A hook is "
-    "'registered in time' if wait_for_pre_shutdown() was called before the completion task read the hook count",
+    "nobody calls shutdown(), wait_for_pre_shutdown() or wait() before RunConfig::execute has returned (it creates the manager and "
+    "returns the only handle; ctl::listen gets its clone after the last accept task is spawned). What execute does before that — for "
+    "each port in turn: take the accept loop's count, create/bind/listen the socket itself (since fix 76d8d4f; before it the spawned "
+    "task did), spawn the accept task — is modelled (Model/ShutdownBoot.v) with the traffic of the loops already running in between; "
+    "that the state at the return is a reachable state of the main transition system is a theorem (booted_reachable), not an assumption. "
+    "A hook is 'registered in time' if wait_for_pre_shutdown() was called before the completion task read the hook count",
     "connections queued in the kernel that no accept() has returned are not 'accepted' (they are reset when the listener closes)",
 ]
 TRUSTED = ["modelled: src/shutdown.rs Manager::{add_connection, remove_connection, shutdown, _shutdown, wait, wait_for_pre_shutdown}, "
            "WakerList::notify, set_waker/remove_waker, AcceptFuture::accept (poll_fn + select!), ConnectionGuard; src/lib.rs accept (loop, "
-           "count, spawn, exit) and the listener part of RunConfig::execute (count, bind + listen, spawn per port: the state it leaves behind is "
-           "the model's initial state; the interleaving of the start-up program itself with a predecessor is C11's model); src/ctl.rs "
-           "shutdown/wait plugins as caller + hook",
+           "count, spawn, exit) and the listener part of RunConfig::execute (non-uring branch: count, bind + listen, spawn per port, interleaved "
+           "with the accept loops already spawned and their connections; the interleaving with a predecessor instance is C11's model); "
+           "src/ctl.rs shutdown/wait plugins as caller + hook",
            "hook points: kvarn commits listed in hooks.json (feature verif-hooks, add-only); the schedule controller lives in the harness"]
 LEVEL_TEXT = ("Machine-checked Coq theorems over an executable labelled transition system of the shutdown manager, the accept future, "
               "the accept loops, the connection tasks (handler returns or panics), the shutdown callers, the completion task, pre-shutdown "
@@ -811,7 +819,14 @@ LEVEL_TEXT = ("Machine-checked Coq theorems over an executable labelled transiti
               "bound (finished_after_all, finished_listeners_closed); every reachable state in which shutdown was requested and no thread "
               "can move has the signal sent, every listener exited, every connection task ended (also after a panic, also with zero "
               "connections, also with two callers), every hook acknowledged, every waiter resolved (no_hang); the signal is sent only after "
-              "as many acknowledgements as hooks were registered when the completion task read their number (hooks_before_finished). For "
+              "as many acknowledgements as hooks were registered when the completion task read their number (hooks_before_finished). The "
+              "initial state of that system (every accept loop counted, bound, about to poll) is itself derived: a second transition system "
+              "is the start-up program of RunConfig::execute (per listener: count, bind + listen, spawn) interleaved in every way with the "
+              "accept loops already spawned, their connection tasks and arriving clients; every state it reaches stands for a reachable "
+              "state of the main system (boot_refines: a refinement with the listeners still to come at the top of their loop and their "
+              "counts added; the decrement of a connection that ends during start-up never sees a count <= 0 because its loop's count is "
+              "held), the state in which execute returns is reachable there (booted_reachable), so both clauses hold after any start-up "
+              "(startup_then_shutdown) and shutdown cannot have been requested before (startup_not_requested). For "
               "kvarn 0.6.3 as found the three statements are refuted by explicit schedules (accepted-but-uncounted connection; panicking "
               "handler; waker registered after notify), each replayed step by step on the real code before it was repaired (three fix "
               "commits). The interleavings are sequentially consistent: the Release/Acquire store-buffering executions that the C/C++11 "
@@ -820,12 +835,15 @@ LEVEL_TEXT = ("Machine-checked Coq theorems over an executable labelled transiti
               "comes to rest from a reachable requested state, a finite continuation has reached the completed state; that it always comes "
               "to rest (termination of the threads' programs) is not mechanised. The "
               "model is tied to the repository on every run by replaying model schedules on a real server through rendez-vous hook points "
-              "and by a method-level differential on a real Manager.")
+              "(from the state in which execute() returned, and with execute() itself under schedule control) and by a method-level "
+              "differential on a real Manager.")
 LEVEL_NOTE = ("Trusted: Coq kernel; extraction (ExtrOcamlBasic) reduced by an in-kernel recheck sample; the hand transcription of "
               "src/shutdown.rs and of the accept loop of src/lib.rs as validated by the schedule replay (which serialises the real threads "
               "at the hook points: what happens between two hook points is assumed atomic w.r.t. the other threads, e.g. a swap replaced "
-              "by load+store is invisible to it); tokio's scheduler, select!, wakers and channels are outside every theorem. Weak-memory "
-              "executions: not covered. No axioms.")
+              "by load+store is invisible to it; in the start-up program 'spawn listener i, take the count of listener i+1' lies between two "
+              "hook points and is executed as one step although the model has it as two); the uring branch of execute (one thread and "
+              "runtime per listener) is not modelled; tokio's scheduler, select!, wakers and channels are outside every theorem. "
+              "Weak-memory executions: not covered. No axioms.")
 TECHNIQUE = ("Coq proof (inductive invariants over all schedules of an executable labelled transition system, any number of listeners, "
-             "connections, callers, hooks, waiters) + schedule-replay correspondence on the real server through rendez-vous hook points + "
-             "method-level differential on the real Manager")
+             "connections, callers, hooks, waiters; refinement proof for the start-up program) + schedule-replay correspondence on the "
+             "real server through rendez-vous hook points, including the start-up + method-level differential on the real Manager")
